@@ -2907,12 +2907,39 @@ def _written_locations(sm):
     return out
 
 
-def new_state(code, ref, func_name=""):
+_KNOWN_ATTRS = {}
+
+
+def _attrs_written_in(tree):
+    """names of every attribute some function of the reviewed module stores to, item-stores into or mutates"""
+    k = id(tree)
+    if k not in _KNOWN_ATTRS:
+        out = set()
+        for n in ast.walk(tree):
+            t = None
+            if isinstance(n, ast.Attribute) and isinstance(n.ctx, (ast.Store, ast.Del)):
+                t = n
+            elif isinstance(n, ast.Subscript) and isinstance(n.ctx, (ast.Store, ast.Del)) and isinstance(n.value, ast.Attribute):
+                t = n.value
+            elif isinstance(n, ast.Call) and isinstance(n.func, ast.Attribute) and n.func.attr in MUTATORS and isinstance(n.func.value, ast.Attribute):
+                t = n.func.value
+            if t is not None:
+                out.add(t.attr)
+        _KNOWN_ATTRS[k] = out
+    return _KNOWN_ATTRS[k]
+
+
+def new_state(code, ref, func_name="", ref_tree=None):
     """locations written by the code that the reference never writes (a memo, a cache, a flag): state that makes a later
-    call depend on an earlier one.  Constructors are exempt (they define the object's attributes)."""
+    call depend on an earlier one.  Constructors are exempt (they define the object's attributes), and so is an attribute
+    that some other reviewed function of the module already maintains (the write may have moved here with its code)."""
     if func_name in ("__init__", "__new__", "__post_init__", "__setstate__"):
         return []
-    return sorted(_written_locations(code) - _written_locations(ref))
+    new = _written_locations(code) - _written_locations(ref)
+    if ref_tree is not None and new:
+        known = _attrs_written_in(ref_tree)
+        new = {loc for loc in new if loc.replace("[]", "").rsplit(".", 1)[-1] not in known}
+    return sorted(new)
 
 
 def compare_summaries(code, ref, near=0.7, _renamed=False):
@@ -3121,7 +3148,7 @@ def reference_status(ctx, fi, ref_source, ref_names, int_names=None, leaf=None, 
         s_ref = summarize(ref_node, canon_ref, leaf, keep, init_env=env_ref)
         status, details = compare_summaries(s_code, s_ref)
         if status != "same":
-            ns = new_state(s_code, s_ref, getattr(fi.node, "name", ""))
+            ns = new_state(s_code, s_ref, getattr(fi.node, "name", ""), tree)
             if ns:
                 # whatever else changed: the function now keeps something between calls that the reviewed one did not
                 status = "differs"
